@@ -328,6 +328,11 @@ def exactness_check(pid: str, part: str) -> int:
         if x.get("wf_problems"):
             disagreements.append({"suite": "tree-wf", "sql": x["rec"]["sql"], "problems": x["wf_problems"][:5]})
 
+    # ---- UPDATE / MERGE / SELECT INTO: layout of the renderer, implementation vs specification (C01 lists these kinds) ----
+    if part == "tables":
+        import dmltie
+        dmltie.run(ck, r, quick, spec_failures, disagreements, dist)
+
     # ---- recorded defect classes: replay the witnesses -------------------------------------------------
     from sqllineage.runner import LineageRunner
     import warnings
